@@ -53,7 +53,10 @@ AllocFailEv(r) ==
     /\ hx' = [hx EXCEPT !.failed = TRUE]
     /\ UNCHANGED gaVars
 
-\* after a reported allocation failure the process must end through handle_alloc_error
+\* after a reported allocation failure the process must end through handle_alloc_error.
+\* No other end of the process is a behaviour: a crash, an abort, a sanitizer report, or class "hang" - the
+\* harness's watchdog saw an operation that did not return (no event for its time limit, or a callback loop
+\* that never ends).  Termination of every operation is thereby part of what a trace must show.
 ExitEv(r) ==
     /\ hx.failed
     /\ r.class = "alloc_error"
@@ -61,24 +64,28 @@ ExitEv(r) ==
     /\ UNCHANGED gaVars
 
 (* ---- large boxed constructions on a 256 KiB stack (C15) -------------------- *)
-BigSpec == [default_boxed |-> [n |-> 1048576, pat |-> "const", c |-> 0, bytes |-> 8388608],
-            generate |-> [n |-> 1048576, pat |-> "mod1000", c |-> 0, bytes |-> 8388608],
-            box_arr_repeat |-> [n |-> 524288, pat |-> "const", c |-> 7, bytes |-> 4194304],
-            boxed_from_iter |-> [n |-> 1048576, pat |-> "mod1000", c |-> 0, bytes |-> 8388608],
-            try_boxed_from_iter |-> [n |-> 524288, pat |-> "mod1000", c |-> 0, bytes |-> 4194304],
-            boxed_map |-> [n |-> 524288, pat |-> "const", c |-> 3, bytes |-> 4194304],
-            \* few, very large elements (one probe value per element is summarised)
-            generate_bigelem |-> [n |-> 256, pat |-> "mod1000", c |-> 0, bytes |-> 4194304],
-            default_boxed_bigelem |-> [n |-> 384, pat |-> "const", c |-> 0, bytes |-> 3194880],
-            default_boxed_32x16k |-> [n |-> 32, pat |-> "const", c |-> 0, bytes |-> 524288],
-            generate_8x128k |-> [n |-> 8, pat |-> "mod1000", c |-> 0, bytes |-> 1048576],
-            default_boxed_1x512k |-> [n |-> 1, pat |-> "const", c |-> 0, bytes |-> 524288]]
+\* every constructor over every shape: many small elements, and few elements of 16 KiB (so that a fast path
+\* selected by element COUNT is still required to build in the heap block)
+BigShapes == [s1m_u64 |-> [n |-> 1048576, esz |-> 8],
+              s256x16k |-> [n |-> 256, esz |-> 16384],
+              s64x16k |-> [n |-> 64, esz |-> 16384],
+              s32x16k |-> [n |-> 32, esz |-> 16384]]
+BigCtors == [default_boxed |-> [pat |-> "const", c |-> 0],
+             generate |-> [pat |-> "mod1000", c |-> 0],
+             box_arr_repeat |-> [pat |-> "const", c |-> 7],
+             boxed_from_iter |-> [pat |-> "mod1000", c |-> 0],
+             try_boxed_from_iter |-> [pat |-> "mod1000", c |-> 0],
+             try_from_vec |-> [pat |-> "mod1000", c |-> 0],
+             boxed_map |-> [pat |-> "const", c |-> 3]]
+ShapeKey(s) == CASE s = "1m_u64" -> "s1m_u64" [] s = "256x16k" -> "s256x16k" [] s = "64x16k" -> "s64x16k" [] s = "32x16k" -> "s32x16k" [] OTHER -> "none"
+BigSpecOf(ctor, shape) == LET sh == BigShapes[ShapeKey(shape)] ct == BigCtors[ctor] IN
+    [n |-> sh.n, pat |-> ct.pat, c |-> ct.c, bytes |-> sh.n * sh.esz]
 ElemAt(s, i) == IF s.pat = "const" THEN s.c ELSE i % 1000           \* 0-based index i
 SumOf(s) == IF s.pat = "const" THEN (s.c * s.n) % 1000003
             ELSE LET q == s.n \div 1000 r == s.n % 1000 IN (q * 499500 + (r * (r - 1)) \div 2) % 1000003
 BigOK(r) ==
-    /\ r.op \in DOMAIN BigSpec
-    /\ LET s == BigSpec[r.op] IN
+    /\ r.op \in DOMAIN BigCtors /\ ShapeKey(r.shape) \in DOMAIN BigShapes
+    /\ LET s == BigSpecOf(r.op, r.shape) IN
        /\ r.n = s.n /\ r.bytes = s.bytes
        /\ r.first = ElemAt(s, 0) /\ r.mid = ElemAt(s, s.n \div 2) /\ r.last = ElemAt(s, s.n - 1)
        /\ r.sum = SumOf(s)
